@@ -286,8 +286,18 @@ fn frame_result(level: u32, n: usize) -> String {
 
 pub const NSPECS: usize = 51;
 
-/// performs call spec `i` and renders its result
+/// performs call spec `i` and renders its result; a panic inside the library is a result too
 pub fn call(i: usize) -> String {
+    match std::panic::catch_unwind(|| call_inner(i)) {
+        Ok(r) => r,
+        Err(p) => format!(
+            "panic:{}",
+            p.downcast_ref::<String>().cloned().or_else(|| p.downcast_ref::<&str>().map(|s| s.to_string())).unwrap_or_default()
+        ),
+    }
+}
+
+fn call_inner(i: usize) -> String {
     match i {
         0..=2 => enc(&pt(3), i),
         3..=5 => enc(&outer(6), i),
